@@ -33,7 +33,7 @@ def _worker(args):
 def run(ctx):
     n = ctx.n(150, 3000)
     rng = random.Random(ctx.seed)
-    cases = [evocase.gen_case(rng) for _ in range(n)]
+    cases = [evocase.gen_case(rng, {"pkey_move": i % 5 < 2}) for i in range(n)]
     with ProcessPoolExecutor(max_workers=14) as ex:
         res = list(ex.map(_worker, [(c, os.path.join(ctx.work, f"e{i}")) for i, c in enumerate(cases)], chunksize=2))
     errs = [(i, r[3]) for i, r in enumerate(res) if r[3]]
@@ -42,12 +42,13 @@ def run(ctx):
     failing = srvprops.coq_eval(ctx, "c17", [r[1] for r in res], f="corr_ecase", g="c17_ecase", require="Corr.RunEvo",
                                 typ="ecase", checker="check_ecases", shard=40)
     violations, corr = [], []
-    hist = {"edits": {}, "cases_with_failures": 0, "cases_without_edit": 0}
+    hist = {"edits": {}, "cases_with_failures": 0, "cases_without_edit": 0, "three_phase_cases": 0}
     for i, (c, (viol, g, (readd, pending_unmapped), _)) in enumerate(zip(cases, res)):
         for e in c["edits"]:
             hist["edits"][e[0]] = hist["edits"].get(e[0], 0) + 1
         hist["cases_with_failures"] += c["p_fail"] > 0
         hist["cases_without_edit"] += not c["edits"]
+        hist["three_phase_cases"] += bool(c.get("phase3"))
         rep = {"replay_kind": "evolution_case", "case": common.enc(c)}
         c_ok, o_ok = failing.get(i, (True, True))
         kinds = sorted(set(v[0] for v in viol))
